@@ -564,8 +564,11 @@ def work(task):
 def replay(case):
     root = _mkroot()
     try:
-        h = Harness(root, [tuple(case["pkg"])])
-        return [c["msg"] for c in check_config(h, case["cfg"])]
+        # replay the whole configuration over the same package universe and in the same order as work():
+        # a defect that depends on which package was judged first (e.g. a cache keyed too coarsely) must
+        # reproduce, so the single package is not evaluated in isolation
+        h = Harness(root, packages())
+        return [c["msg"] for c in check_config(h, case["cfg"]) if list(c["pkg"]) == list(case["pkg"])]
     finally:
         shutil.rmtree(root, ignore_errors=True)
 
